@@ -393,7 +393,7 @@ func c16Automaton(c *Ctx) {
 		fk := funcKey(fn)
 		// (a) opposite counter reset to 0 in the entry block
 		resetOK := false
-		for _, st := range storesToField(fn, ".sessionChecker", s.resetCnt, false) {
+		for _, st := range storesToField(fn, "", s.resetCnt, false) /* whatever struct of the checker holds the counter */ {
 			if isZero(st.Val) && st.Block() == fn.Blocks[0] {
 				resetOK = true
 			}
@@ -402,7 +402,7 @@ func c16Automaton(c *Ctx) {
 		// (b) own counter increment guarded by ContainHealthFlag(FAILED_ACTIVE_HC) polarity
 		var inc *ssa.Store
 		nInc := 0
-		for _, st := range storesToField(fn, ".sessionChecker", s.ownCnt, false) {
+		for _, st := range storesToField(fn, "", s.ownCnt, false) {
 			if bo, ok := st.Val.(*ssa.BinOp); ok && bo.Op == token.ADD {
 				if n, ok := constInt(bo.Y); ok && n == 1 {
 					if _, f, _, ok := loadedField(bo.X); ok && f == s.ownCnt {
